@@ -1172,3 +1172,21 @@ def check_public_exports(ctx: Ctx, mod, files: List[str]):
         ctx.undec("G.9", f"{m0.relpath}:{line0} {rel[0][3].split(':')[1]}", f"public view ({what}): {u.rule} undecided: {u.reason}")
     if not new and not new_u:
         ctx.ok("G.9", f"{m0.relpath}:{line0}", f"public view ({what}): every rule of the property passes on the replacing definition")
+
+
+# ------------------------------------------------------------------------------------------- helpers written out in callers
+def helper_or_caller(ctx: Ctx, modname: str, fname: str):
+    """Summary of a private reference helper -- or, when the helper no longer exists because its body was written out in the one
+    function that called it on the reference tree, the summary of that caller (the helper's events are then part of it).
+    -> (summary, written_out: bool); raises the lookup error when neither applies."""
+    try:
+        return ctx.summ.of_func(modname, fname), False
+    except AnalysisError:
+        if not fname.split(".")[-1].startswith("_"):
+            raise
+        from sa.alias import CALLS
+        callers = sorted({s_["caller"] for s_ in CALLS.get(f"{modname}:{fname}", {}).get("sites", [])})
+        if len(callers) != 1:
+            raise
+        cm, cf = callers[0].split(":")
+        return ctx.summ.of_func(cm, cf), True
